@@ -26,6 +26,7 @@ cache layers (plus the invocation's own writes for `findw`).
                                                after a reset it is what the model's backward search (findValidated) found
   local                                     -> <CurrentLocalHeight> <CurrentLocalStateRoot hex>
   reset <h>                                 -> ok       ResetState(h) on the model, heights above h forgotten
+  flush <0|1>                               -> ok       a flush of the write cache (0: the DB write failed): Op.flush, a no-op
   resetrefused <h>                          -> ok       Blockchain.Reset refused the request before writing (RemoveUntraceableBlocks
                                                below the tip): the model is untouched, the following sroot/local lines must agree
   restart                                   -> ok       Init(current height) on the model
@@ -184,6 +185,10 @@ def step (s : St) (ws0 : List String) : St × String :=
       let t := mod.m.mpt
       ({ s with cur := t, hist := s.hist.filter (fun e => e.1 ≤ hn), live := liveOf t, mod := mod }, "ok")
     | none => (s, "bad-op")
+  | ["flush", ok] =>
+    -- a flush of the node's write cache (0 = the DB refused the write): a no-op on records, trie and storage
+    let mod := (StateCommit.Roots.step (trieOps s.tries) s.mod (.flush (ok == "1"))).getD s.mod
+    ({ s with mod := mod }, "ok")
   | ["resetrefused", _] => (s, "ok")      -- a refused reset: nothing changes
   | ["restart"] =>
     let mod := (StateCommit.Roots.step (trieOps s.tries) s.mod .restart).getD s.mod
